@@ -333,7 +333,7 @@ def cases(tier, seed):
                         "lite": False})
     # things a model must not share or demand (dedicated cases)
     for nm in ("constraints-not-shared", "support-before-substitution",
-               "zero-d-optics"):
+               "zero-d-optics", "several-constraints"):
         out.append({"id": "misc:" + nm, "kind": "misc", "what": nm})
     # pixels=k path under every scripted selection
     shapes = [(2, 2)] if tier == "quick" else [(2, 2), (2, 3)]
@@ -1227,6 +1227,34 @@ def _run_misc(case, ck):
                 "appending to the caller's list after construction changed "
                 "the model's log-prior to %r" % m4.lnprior(vals))
         return digest(repr(before))
+    if what == "several-constraints":
+        # every constraint of the list counts, wherever it stands
+        loose, tight = LimitOverlaps(1.0), LimitOverlaps(0.0)
+        acc = []
+        data = calc_holo(det, two(2.0), theory=Mie())
+        for name, cons, vals, allowed in (
+                ("[tight, loose]", [tight, loose], [0.6], False),
+                ("[loose, tight]", [loose, tight], [0.6], False),
+                ("[tight, loose, loose]", [tight, loose, loose], [0.6],
+                 False),
+                ("[tight, loose]", [tight, loose], [2.0], True),
+                ("[loose, loose]", [loose, loose], [0.6], True)):
+            m = AlphaModel(two(Uniform(0.0, 3.0)), alpha=0.7, theory=Mie(),
+                           constraints=list(cons))
+            with warnings.catch_warnings():
+                warnings.simplefilter("ignore")
+                lp = m.lnprior(vals)
+                lpost = m.lnposterior(vals, data)
+            ck.trans += 2
+            ck.true("lnprior-neginf:constraint",
+                    (math.isfinite(lp) and math.isfinite(lpost)) if allowed
+                    else (lp == NEG_INF and lpost == NEG_INF),
+                    "constraints %s (tight forbids any overlap, loose allows "
+                    "all) at x2 = %r: lnprior %r, lnposterior %r, expected "
+                    "%s" % (name, vals[0], lp, lpost,
+                            "finite" if allowed else "-inf"))
+            acc.append(repr(lp))
+        return digest(acc)
     if what == "support-before-substitution":
         # the radius is written as 1 / p: a value of p outside its support
         # (0.0) cannot even be substituted
